@@ -1752,3 +1752,83 @@ Proof.
   unfold restart_pre, partial_pre in Hp. rewrite !andb_true_iff in Hp. tauto.
 Qed.
 End Wf.
+
+(** ------------------------------------------------------------------ kernels galaxy itself wrote *)
+(** the closure of the kernels without GLX state under successful Runs from states outside the four defect shapes
+    (any sequence of clusters, any manager memory) *)
+Inductive galaxy_written (H : str -> str) (host : str) : kernel -> Prop :=
+| gw_fresh k : fresh k = true -> galaxy_written H host k
+| gw_run c m k m' k' :
+    galaxy_written H host k -> hash_distinct H host c = true -> partial_pre H host c k = true ->
+    run H host c (m, k) = (m', k', true) -> galaxy_written H host k'.
+
+Lemma galaxy_written_wf H host k : galaxy_written H host k -> kernel_consistent k = true /\ glx_shape k = true.
+Proof.
+  induction 1 as [k Hf|c m k m' k' _ [IH1 IH2] Hd Hp R].
+  - pose proof (fresh_restart_pre H host (mkCluster [] [] []) k Hf eq_refl) as E.
+    unfold restart_pre, partial_pre in E. rewrite !andb_true_iff in E. tauto.
+  - apply (run_keeps_wf H host c k m m' k' Hd); [|exact R]. unfold restart_pre. rewrite Hp, IH2. reflexivity.
+Qed.
+
+Theorem run_written H host c k m :
+  galaxy_written H host k -> hash_distinct H host c = true -> partial_pre H host c k = true ->
+  exists m' k', run H host c (m, k) = (m', k', true) /\ glx_exact H host c k' = true /\ foreign_same k k' = true /\
+    galaxy_written H host k' /\
+    exists m'' k'', run H host c (m', k') = (m'', k'', true) /\ kernel_eqv k'' k' = true.
+Proof.
+  intros Hw Hd Hp. destruct (galaxy_written_wf H host k Hw) as [_ Hs].
+  assert (restart_pre H host c k = true) as Hr by (unfold restart_pre; rewrite Hp, Hs; reflexivity).
+  destruct (run_restart_bool H host c k m Hd Hr) as [m' [k' [R [E F]]]]. exists m', k'.
+  split; [exact R|]. split; [exact E|]. split; [exact F|]. split; [exact (gw_run H host c m k m' k' Hw Hd Hp R)|].
+  exact (run_idem_bool H host c k m m' k' Hd Hr R).
+Qed.
+
+(** ------------------------------------------------------------------ witnesses: the hypothesis is met by a restart
+    across added pods and an added policy; the corpus defect shapes fail it; partial_pre alone is not enough *)
+Local Open Scope N_scope.
+Definition r_new := mkPol (L "ns1") (L "new") [(L "app", L "db")] true true
+  [mkPRule [] [PeerPod [(L "app", L "web")]]]
+  [mkPRule [(L "udp", 53)] [PeerBlock (ip4 8 8 0 0, 16) [(ip4 8 8 8 0, 24)]]].
+Definition r_x := mkPod (L "ns1") (L "x") [(L "app", L "web")] (Some (ip4 10 0 0 9)) w_host.
+Definition r_y := mkPod (L "ns2") (L "y") [(L "app", L "db")] (Some (ip4 10 0 1 9)) (L "node2").
+Local Close Scope N_scope.
+(** the cluster of corpus case 0 plus a local pod, a remote pod and a second policy *)
+Definition r_c := mkCluster w_nss [w_web; w_db; w_cli; r_x; r_y] [w_old; r_new].
+(** what galaxy left for the earlier cluster on a node with foreign chains and sets *)
+Definition r_k := kernel_after idH w_host w5_c0 1 w_k0.
+
+Lemma restart_example_l :
+  fresh r_k = false /\ restart_pre idH w_host r_c r_k = true /\ hash_distinct idH w_host r_c = true /\
+  List.length (all_sets (compile idH r_c)) = 6%nat /\
+  restart_pre idH w_host w5_c r_k = false /\
+  restart_pre idH w_host w5b_c (kernel_after idH w_host w5b_c0 1 w_k0) = false /\
+  restart_pre idH w_host w5c_c (kernel_after idH w_host w5b_c0 1 w_k0) = false /\
+  restart_pre idH w_host w5d_c w_k0 = false.
+Proof. repeat split; vm_compute; reflexivity. Qed.
+
+(** GLX-INGRESS holding a hook rule twice: consistent, none of the four shapes, and no Run is exact *)
+Definition dup_hooks (k : kernel) : kernel :=
+  mkK (map (fun e => if str_eqb (fst e) ingress_chain then (fst e, snd e ++ snd e) else e) (k_filter k)) (k_sets k).
+(** a GLX-POD chain with a rule that names a GLX set no policy wants: the set survives the first Run *)
+Definition pin_set (k : kernel) : kernel :=
+  mkK (map (fun e => if has_prefix pod_prefix (fst e)
+                     then (fst e, snd e ++ [mkRule [] [] [] [] [L "-m"; L "set"; L "--match-set"; L "GLX-ip-zzz"; L "src"]
+                                                   (L "ACCEPT") []])
+                     else e) (k_filter k))
+      (k_sets k ++ [(L "GLX-ip-zzz", mkSet HashIP [])]).
+
+Lemma partial_pre_insufficient_l :
+  (let k := dup_hooks r_k in
+   partial_pre idH w_host w5_c0 k = true /\ hash_distinct idH w_host w5_c0 = true /\ glx_shape k = false /\
+   forall n, glx_exact idH w_host w5_c0 (kernel_after idH w_host w5_c0 (S n) k) = false) /\
+  (let k := pin_set r_k in
+   partial_pre idH w_host w5_c0 k = true /\ glx_shape k = false /\
+   glx_exact idH w_host w5_c0 (kernel_after idH w_host w5_c0 1 k) = false /\
+   kernel_eqv (kernel_after idH w_host w5_c0 2 k) (kernel_after idH w_host w5_c0 1 k) = false).
+Proof.
+  split; cbv zeta.
+  - split; [vm_compute; reflexivity|]. split; [vm_compute; reflexivity|]. split; [vm_compute; reflexivity|].
+    intros n. unfold kernel_after at 1. unfold runs.
+    rewrite iter_fix by (vm_compute; reflexivity). vm_compute. reflexivity.
+  - repeat split; vm_compute; reflexivity.
+Qed.
